@@ -526,13 +526,17 @@ fn run_local_worker(worker: &Worker, id: usize, parker: Parker, abort_signal: Si
         loop {
             // Signal barrier: park until notified to continue or terminate.
 
+            // Fold the thread-local message count into the global counter
+            // *before* this worker is marked as inactive: the executor thread
+            // reads the global counter as soon as it observes an idle pool.
+            update_msg_count();
+
             // Try to deactivate the worker.
             if pool_manager.try_set_worker_inactive(id) {
                 #[cfg(nexosim_verif)]
                 crate::verif::point(20, id, 1);
                 // No need to call `begin_worker_search()`: this was done by the
                 // thread that unparked the worker.
-                update_msg_count();
                 #[cfg(nexosim_verif)]
                 crate::verif::point(22, id, 0);
                 parker.park();
@@ -548,7 +552,6 @@ fn run_local_worker(worker: &Worker, id: usize, parker: Parker, abort_signal: Si
                 pool_manager.set_all_workers_inactive();
                 #[cfg(nexosim_verif)]
                 crate::verif::point(21, id, 0);
-                update_msg_count();
                 #[cfg(nexosim_verif)]
                 crate::verif::point(25, id, 0);
                 executor_unparker.unpark();
